@@ -2,8 +2,15 @@
 """usage: tools/mkseed.py <ID> [n]  -- creates scratch worktree /tmp/seed-<ID> and the task file /tmp/seed-<ID>-task.md"""
 import json, subprocess, sys
 pid = sys.argv[1]; n = int(sys.argv[2]) if len(sys.argv) > 2 else 4
+rnd = int(sys.argv[3]) if len(sys.argv) > 3 else 1
 p = [json.loads(l) for l in open('/verif/properties.jsonl') if json.loads(l)['id'] == pid][0]
-wt = '/tmp/seed-%s' % pid
+wt = '/tmp/seed-%s' % pid if rnd == 1 else '/tmp/seed%d-%s' % (rnd, pid)
+import glob, os
+prev = []
+for m in sorted(glob.glob('/verif/seeded/%s/*/meta.json' % pid)):
+    try: prev.append('- ' + json.load(open(m)).get('summary', '')[:400].replace('\n', ' '))
+    except Exception: pass
+prev_txt = ('\n## Already tried (do NOT repeat these ideas or close variants; find different mechanisms, sites and triggering conditions)\n' + '\n'.join(prev) + '\n') if prev and rnd > 1 else ''
 subprocess.run(['git', '-C', '/repo', 'worktree', 'add', '--detach', wt, 'HEAD'], check=True, capture_output=True)
 task = f"""# Task: seed realistic regressions that break one property
 
@@ -43,6 +50,6 @@ For each change i=1..{n} write into {wt}-out/m<i>/:
 Verify each yourself: demo passes on the clean worktree, fails with the change; the test suite still passes with it.
 Between changes restore the worktree with `git -C {wt} checkout -- .`. Leave the worktree clean at the end.
 Final answer: a one-line summary per change.
-"""
+{prev_txt}"""
 open(wt + '-task.md', 'w').write(task)
 print(wt + '-task.md')
